@@ -35,13 +35,15 @@ type Monitor struct {
 	dead map[int]bool
 	// whether any pass since the last fully successful one failed
 	failedSince bool
-	lastWrite   map[int]int // C12: var -> last value written between passes (or deferred)
+	deferred    map[int]int // C12: var -> value the mid-pass writes of this pass must leave behind
+	passStart   map[int]int // C12: var values when the pass started
 }
 
 func NewMonitor(e *Exec) *Monitor {
 	m := &Monitor{E: e, live: map[int]bool{}, invalided: map[int]bool{}, runsThisPass: map[int]int{},
-		rhsRoot: map[int]int{}, dead: map[int]bool{}, lastWrite: map[int]int{}}
+		rhsRoot: map[int]int{}, dead: map[int]bool{}, deferred: map[int]int{}, passStart: map[int]int{}}
 	e.OnEvent = m.onEvent
+	e.OnAction = m.onAction
 	return m
 }
 
@@ -100,10 +102,33 @@ func (m *Monitor) onEvent(ev Event) {
 	}
 }
 
+// onAction sees every mid-pass write at the moment the node function performs it.
+func (m *Monitor) onAction(a Action) {
+	if a.Kind != "ASet" && a.Kind != "AUpdate" {
+		return
+	}
+	base, pending := m.deferred[a.Var]
+	if !pending {
+		base = m.E.Nodes[a.Var].Inc.Value()
+	}
+	if a.Kind == "ASet" {
+		m.deferred[a.Var] = a.X
+	} else {
+		m.deferred[a.Var] = norm(base + a.X)
+	}
+}
+
 // BeforeOp is called before each operation.
 func (m *Monitor) BeforeOp(op Op) {
 	if op.K == "Stabilize" || op.K == "StabilizeCancelled" {
 		m.runsThisPass = map[int]int{}
+		m.deferred = map[int]int{}
+		m.passStart = map[int]int{}
+		for id, ref := range m.E.Nodes {
+			if ref != nil && ref.Kind == "Var" {
+				m.passStart[id] = ref.Inc.Value()
+			}
+		}
 	}
 }
 
@@ -274,6 +299,17 @@ func (m *Monitor) AfterOp(op Op, s Sample) {
 	}
 	if isPass && s.Class != "XOk" {
 		m.failedSince = true
+		// C07: a pass fails only for a reason: an injected fault, a cancelled context, or a
+		// structural rejection (cycle, height limit)
+		injected := op.K == "StabilizeCancelled"
+		for _, a := range op.Plan {
+			if a.Kind == "AFailErr" || a.Kind == "AFailPanic" {
+				injected = true
+			}
+		}
+		if !injected && s.Class != "XCycle" && s.Class != "XLimit" {
+			m.add("C07", "spurious-error", fmt.Sprintf("%s returned %s although nothing failed", op.String(), s.Class))
+		}
 	}
 	// C06: registered exactly when reachable from an observer (skipped while a failed bind is pending)
 	if !m.failedSince {
@@ -297,8 +333,23 @@ func (m *Monitor) AfterOp(op Op, s Sample) {
 			}
 		}
 	}
+	// C12: a write between passes is the var's value at once (last write wins)
+	if op.K == "SetVar" && e.Nodes[op.A].Inc.Value() != op.V {
+		m.add("C12", "write-lost", fmt.Sprintf("%s but the var reads %d", op.String(), e.Nodes[op.A].Inc.Value()))
+	}
 	if !isPass {
 		return
+	}
+	// C12: mid-pass writes do not show during the pass and are the var's value once it ends
+	for v, before := range m.passStart {
+		if at, ok := m.endVals[v]; ok && at != before {
+			m.add("C12", "midpass-write-visible", fmt.Sprintf("n%d read %d when the pass started and %d when it ended, before deferred writes apply", v, before, at))
+		}
+	}
+	for v, want := range m.deferred {
+		if got := e.Nodes[v].Inc.Value(); got != want {
+			m.add("C12", "deferred-write-lost", fmt.Sprintf("n%d was written %d from inside the pass but reads %d after it", v, want, got))
+		}
 	}
 	m.passOracles(op, s)
 }
